@@ -184,12 +184,12 @@ HYPHEN_SHEETS = ['My-Sheet', '2020-data', 'a-b c', '-']
 LOOKALIKE_SHEETS = ['A1', 'R1C1', 'XFD1', 'XFD1048576', 'RC', 'R', 'C', 'R5', 'C3', 'a1', 'r1c1', 'AAA111',
                     'A1 B2', 'R5C3 x']
 UNICODE_SHEETS = ['Größe', '日本語', 'données 2020', 'Лист1', 'שלום', 'emoji 😀', 'naïve-é', '数据 表']
-LONG_SHEETS = ['abcdefghijklmnopqrstuvwxyz01234', "thirty one chars with ' and blan"]
+LONG_SHEETS = ['abcdefghijklmnopqrstuvwxyz01234', "thirty one chars with ' and bla"]
 LEGAL_SHEETS = (PLAIN_SHEETS + SPACE_SHEETS + APOS_SHEETS + SPACE_APOS_SHEETS + DIGIT_SHEETS +
                 DIGIT_SPACE_SHEETS + HYPHEN_SHEETS + LOOKALIKE_SHEETS + UNICODE_SHEETS + LONG_SHEETS)
 BANG_SHEETS = ['a!b', 'a!b c', 'Hello!', '!', '#REF!', 'wow! such', "it's!"]
-ALPHABET = list('abcXYZRC') + list('0159') + [' ', ' ', "'", '-', '.', '_', 'é', 'ß', '日', '本', 'Ж', '😀',
-                                               ',', '(', ')', '&', '+', '=', '#', '$', '"', '%', ';', '~']
+ALPHABET = (list('abcXYZRC') + list('0159') + [' ', ' ', "'", '-', '.', '_', 'é', 'ß', '日', '本', 'Ж', '😀'] +
+            [',', '(', ')', '&', '+', '=', '#', '$', '"', '%', ';', '~'])
 LOOKALIKE_RE = re.compile(r'^([A-Za-z]{1,3}\d+|[Rr]\d*[Cc]\d*|[Rr]\d*|[Cc]\d*)$')
 
 
